@@ -102,10 +102,12 @@ class LinkBus:
     """FakeBus variant whose send() records the frame and forwards it to the peer network."""
     channel_info = "verif-link"
 
-    def __init__(self, rec, side, forward):
-        self.rec, self.side, self.forward = rec, side, forward
+    def __init__(self, rec, side, forward, slow=0.0):
+        self.rec, self.side, self.forward, self.slow = rec, side, forward, slow
 
     def send(self, msg, timeout=None):
+        if self.slow:
+            time.sleep(self.slow)       # a driver that takes its time: other senders queue up meanwhile
         cid, data = msg.arbitration_id, bytes(msg.data)
         if self.side == "master" and 0x600 < cid < 0x680:
             self.rec.add({"e": "q", "node": cid - 0x600, "d": B(data)})
@@ -161,8 +163,9 @@ def run_case(case: dict) -> dict:
         net2.bus = LinkBus(rec, "slave", lambda cid, d: net1.notify(cid, bytearray(d), 0.0))
     else:  # deferred: a dispatcher thread delivers with seeded delays
         dq = real_queue.Queue()
-        net1.bus = LinkBus(rec, "master", lambda cid, d: dq.put((net2, cid, d)))
-        net2.bus = LinkBus(rec, "slave", lambda cid, d: dq.put((net1, cid, d)))
+        slow = 0.0004 if case.get("slow_send") else 0.0
+        net1.bus = LinkBus(rec, "master", lambda cid, d: dq.put((net2, cid, d)), slow)
+        net2.bus = LinkBus(rec, "slave", lambda cid, d: dq.put((net1, cid, d)), slow)
         drng = random.Random(rng.randrange(1 << 30))
 
         def dispatcher():
